@@ -67,6 +67,14 @@ def make_experiments(d, seed):
     for k in sets:
         names = {r.name for r in sets[k]}
         sets[k] = [r for r in reads if r.name in names]
+    # alignment records that occur twice (same name, same coordinates; IsoQuant reports them and keeps one copy): six reads in A, one in B,
+    # two in C - what an experiment does with its repeated records must not depend on how many an earlier experiment had
+    for k, ndup in (("A", 6), ("B", 1), ("C", 2)):
+        fam = {}
+        for r in sets[k]:
+            fam[r.name] = fam.get(r.name, 0) + 1
+        singles = [r for r in sets[k] if fam[r.name] == 1 and not r.flag & 0x904 and len(r.cigar) >= 3]
+        sets[k] = sets[k] + singles[3:3 + 5 * ndup:5]
     unm = {"A": 2, "B": 5, "C": 0}
     paths = {}
     for k, rs in sets.items():
